@@ -9,6 +9,7 @@ mod search;
 mod searchprops;
 #[allow(dead_code)]
 mod jsonproto;
+mod c15;
 
 use ctx::{Ctx, Tier};
 
@@ -64,6 +65,7 @@ fn main() {
         "C04" => searchprops::run(&mut ctx, searchprops::Prop::C04),
         "C05" => searchprops::run(&mut ctx, searchprops::Prop::C05),
         "C10" => searchprops::run(&mut ctx, searchprops::Prop::C10),
+        "C15" => c15::run(&mut ctx),
         _ => {
             eprintln!("unknown property {}", prop);
             std::process::exit(2);
